@@ -62,6 +62,7 @@ mod ir_builder {
             rule module_kind() -> Kind
                 = "script" _ { Kind::Script }
                 / "predicate" _ { Kind::Predicate }
+                / "library" _ { Kind::Library }
 
             rule contract() -> IrAstModule
                 = "contract" _ "{" _
